@@ -579,6 +579,51 @@ def defined_before_used(ctx):
                              'left in that field' % (c, f[0], f[1], ln, init))
             else:
                 ctx.ob(props, 'RF12-defuse', c, site, 'all set by %s on every successful path' % init)
+        if kind == 'block upload':
+            # the go-back-N re-entry (Blk.State == BLK_REPEAT) reads what the PREVIOUS call of the same handler left: each such
+            # field is set by the initiator on every successful path, or written on every path of the handler itself, or
+            # handed over by the acknowledge handler - otherwise the repeat computes with the value of an earlier transfer
+            c = 'COSdoUploadBlock'
+            all_reads = _uer2(m, c, False, 0)[0]
+            plain = _uer2(m, c, True, 0)
+            rep_only = dict((f, ln) for f, ln in all_reads.items() if f not in plain[0])
+            # fields written on every path of the handler that leaves the transfer OPEN (a path that aborts closes it: no
+            # retransmission can follow, so it does not count)
+            g_ = m.cfg(c)
+            ALLF = frozenset(TRANSFER)
+
+            def tr_(node, st):
+                if node.x is None:
+                    return st
+                out = st
+                for cx_ in walk(node.x):
+                    if cx_.k == 'call' and callee_name(cx_) in ('COSdoAbort', 'COSdoAbortReq'):
+                        out = ALLF
+                for (p_, rhs_, n_) in flow.assigned_paths(node.x):
+                    l_ = strip(n_.kids[0]) if n_.k != 'var' else None
+                    if l_ is not None and l_.k == 'mem' and l_.field in TRANSFER:
+                        out = out | frozenset([l_.field])
+                return out
+            IN_, OUT_ = flow.forward(g_, frozenset(), tr_, lambda a, b: a & b)
+            must_self = IN_.get(g_.exit.id, frozenset())
+            ack = set()
+            if 'COSdoAckUploadBlock' in m.funcs:
+                for n_ in walk(m.funcs['COSdoAckUploadBlock'].body):
+                    if n_.k == 'bin' and n_.op == '=':
+                        l_ = strip(n_.kids[0])
+                        if l_.k == 'mem' and l_.field in TRANSFER:
+                            ack.add(l_.field)
+            missing = sorted((f, ln) for f, ln in rep_only.items() if f not in mw and f not in must_self and f not in ack)
+            site = 'block upload: the retransmission branch of %s reads %s' % (c, sorted('%s.%s' % f for f in rep_only))
+            if missing:
+                ctx.ob(['C03', 'C05'], 'RF12-defuse', c, site, None)
+                for (f, ln) in missing:
+                    ctx.find(['C03', 'C05'], 'RF12-defuse', c, 'repeat-undefined:%s.%s' % f, m.loc(c, ln),
+                             'the retransmission (BLK_REPEAT) branch of %s reads %s.%s (line %d), which is neither set by %s on every '
+                             'successful path, nor written on every path of %s, nor handed over by COSdoAckUploadBlock: after a '
+                             'partially confirmed block it computes with what an EARLIER transfer left there' % (c, f[0], f[1], ln, init, c))
+            else:
+                ctx.ob(['C03', 'C05'], 'RF12-defuse', c, site, 'each set by the initiator, by every path of the handler, or by the acknowledge')
 
 
 def _written_by_predecessor(m, kind, cont, field):
